@@ -9,6 +9,7 @@ import enum
 import inspect
 import logging
 import re
+import types
 from abc import ABCMeta, abstractmethod
 from typing import (
     Any,
@@ -108,9 +109,27 @@ def _get_import_for_qualname(qualname: str) -> str:
     return qualname.split(".")[0]
 
 
+# types.GenericAlias (list[int]) and types.UnionType (int | None), where they exist
+_BUILTIN_ALIAS_TYPES = tuple(
+    t
+    for t in (getattr(types, "GenericAlias", None), getattr(types, "UnionType", None))
+    if t is not None
+)
+
+
 def get_imports_for_annotation(anno: Any) -> ImportMap:
     """Return the imports (module, name) needed for the type in the annotation"""
     imports = ImportMap()
+    if isinstance(anno, _BUILTIN_ALIAS_TYPES):
+        # list[other.Foo], other.Foo | None (PEP 585 / PEP 604) in an existing
+        # annotation: rendered through repr(), so the classes it mentions have
+        # to be imported (and their module prefixes stripped) like any other
+        origin = getattr(anno, "__origin__", None)
+        if origin is not None:
+            imports.merge(get_imports_for_annotation(origin))
+        for arg in getattr(anno, "__args__", ()):
+            imports.merge(get_imports_for_annotation(arg))
+        return imports
     if (
         anno is inspect.Parameter.empty
         or anno is inspect.Signature.empty
